@@ -32,6 +32,7 @@ func runProperty(c *core.Ctx, check string, nProg, salt int, genCase func(*rapid
 	}
 	c.Extra("rapid_cases", len(cases))
 	seenClass := map[string]bool{}
+	var pending []pendingViolation
 	batches := 0
 	for lo := 0; lo < len(cases); lo += batchSize {
 		hi := lo + batchSize
@@ -51,7 +52,7 @@ func runProperty(c *core.Ctx, check string, nProg, salt int, genCase func(*rapid
 			}
 			seenClass[kc] = true
 			jj := *j
-			c.Violation(kc, msg, &core.Replay{Check: check, Case: rc.Case, Jobs: []core.Job{jj}, Expected: jj.Expect + " " + jj.Rule, Observed: msg})
+			pending = append(pending, pendingViolation{rc, jj, kc, msg})
 		})
 		batches++
 		if err != nil {
@@ -65,6 +66,33 @@ func runProperty(c *core.Ctx, check string, nProg, salt int, genCase func(*rapid
 		}
 	}
 	c.Extra("batches", batches)
+	// phase 2b: reduce (model level) and report
+	budget := 30
+	if c.Thorough() {
+		budget = 120
+	}
+	total := 0
+	for i, pv := range pending {
+		rc, jj := pv.rc, pv.job
+		note := ""
+		if i < 3 {
+			rr, rj, evals := reduceRunFailure(pv.rc, &pv.job, judge, pv.class, budget)
+			total += evals
+			if evals > 0 {
+				note = fmt.Sprintf("reduced at model level with %d single-program evaluations from a %d-byte schema", evals, len(pv.rc.Case.Files[0].Text))
+				rc, jj = rr, *rj
+			}
+		}
+		c.Violation(pv.class, pv.msg, &core.Replay{Check: check, Case: rc.Case, Jobs: []core.Job{jj}, Expected: jj.Expect + " " + jj.Rule, Observed: pv.msg, Note: note})
+	}
+	c.Extra("reducer_evaluations", total)
+}
+
+type pendingViolation struct {
+	rc    *RunCase
+	job   core.Job
+	class string
+	msg   string
 }
 
 // docSet builds the jobs for one program: valid documents (accept, with
